@@ -101,18 +101,17 @@ def answerDirection : Dir → Dir
 
 def sends (d : Dir) : Bool := d = .sendrecv || d = .sendonly
 
-def remoteExpectsMedia (remote : List Media) (mid : Str) : Bool :=
-  match remote.find? (fun s => s.mid = mid) with
-  | some s => s.dir = .sendrecv || s.dir = .sendonly
-  | none => false
+/-- `remote_expects_media`; `o` is the offered section this answer section responds to — the remote
+section AT THE SAME INDEX (round-3 `fix:`; before it: the first remote section with the transceiver's mid) -/
+def remoteExpectsMedia (o : Media) : Bool := o.dir = .sendrecv || o.dir = .sendonly
 
 def downgrade : Dir → Dir
   | .sendrecv => .recvonly | .sendonly => .inactive | d => d
 
-def finalDirection (t : TrxView) (remote : List Media) (mid : Str) : Dir :=
+def finalDirection (t : TrxView) (o : Media) : Dir :=
   let d := answerDirection t.dir
   if sends d && !t.hasSender && !t.hasSenderSsrc && t.kind != .application && t.kind != .image &&
-      !remoteExpectsMedia remote mid then downgrade d else d
+      !remoteExpectsMedia o then downgrade d else d
 
 /-! ### `apply_config` -/
 
@@ -214,22 +213,14 @@ def deriveAnswerAudio (remote : Media) (loc : List ACap) : List ACap :=
                              then (match rc.fmtp with | some f => some f | none => lc.fmtp) else lc.fmtp }
     | none => none
 
-/-- `reinvite_answer_audio_capabilities` (answers only). Since the round-2 `fix:` ("create_answer intersects
-the audio codecs with the offer on the first negotiation too") the function no longer reads whether a
-local description exists; `hasLocal` is kept as an (ignored) input so that the driver line format and
-`Legacy.reinviteAudioCaps` stay comparable. -/
-def reinviteAudioCaps (c : Cfg) (remote : List Media) (_hasLocal : Bool) (mid : Str) : Option (List ACap) :=
-  let rs := if mid.isEmpty then remote.find? (fun s => s.kind = .audio)
-            else remote.find? (fun s => s.kind = .audio && s.mid = mid)
-  match rs with
-  | none => none
-  | some r =>
-    let caps := deriveAnswerAudio r c.audioCaps
+/-- `reinvite_answer_audio_capabilities` (answers only): the local audio capabilities intersected with
+the offered section at the same index, if that section is an audio section and the intersection is not
+empty. (Round 2: taken on first negotiations too. Round 3: the section is found by index, not by mid.) -/
+def reinviteAudioCaps (c : Cfg) (o : Media) : Option (List ACap) :=
+  if o.kind = .audio then
+    let caps := deriveAnswerAudio o c.audioCaps
     if caps.isEmpty then none else some caps
-
-/-- the function before that fix: the first answer (no local description yet) never intersected -/
-def Legacy.reinviteAudioCaps (c : Cfg) (remote : List Media) (hasLocal : Bool) (mid : Str) : Option (List ACap) :=
-  if !hasLocal then none else RtcModel.Answer.reinviteAudioCaps c remote hasLocal mid
+  else none
 
 /-- `apply_audio_capabilities` -/
 def applyAudioCaps (fa : List Str × List Attr) (caps : List ACap) : List Str × List Attr :=
@@ -301,52 +292,42 @@ def remoteVideoClock (m : Media) (primary : Nat) : Nat :=
   if eqIgnoreAsciiCase r.1 "rtx".toList then 90000 else r.2
 
 /-- `merge_remote_rtx_into_answer` -/
-def mergeRemoteRtx (remote : List Media) (mid : Str) (fa : List Str × List Attr) : List Str × List Attr :=
-  let rs := match remote.find? (fun s => s.mid = mid) with
-    | some s => some s
-    | none => remote.find? (fun s => s.kind = Kind.video)
-  match rs with
-  | none => fa
-  | some r =>
-    let am := aptMap r.attrs
-    if am.isEmpty then fa else
-    let primaries := (fa.1.filterMap parseU8).filter (fun pt => !(am.any (·.1 = pt)))
-    primaries.foldl (fun fa p =>
-      match rtxFor am p with
-      | some rtx => appendRtx fa p rtx (remoteVideoClock r p)
-      | none => fa) fa
+def mergeRemoteRtx (r : Media) (fa : List Str × List Attr) : List Str × List Attr :=
+  let am := aptMap r.attrs
+  if am.isEmpty then fa else
+  let primaries := (fa.1.filterMap parseU8).filter (fun pt => !(am.any (·.1 = pt)))
+  primaries.foldl (fun fa p =>
+    match rtxFor am p with
+    | some rtx => appendRtx fa p rtx (remoteVideoClock r p)
+    | none => fa) fa
 
 /-! ### header extensions -/
 
 /-- `get_remote_extmap_id` -/
-def remoteExtId (remote : List Media) (mid : Str) (uri : Str) : Option Str :=
-  match remote.find? (fun s => s.mid = mid) with
-  | none => none
-  | some r =>
-    let rec go : List Attr → Option Str
-      | [] => none
-      | a :: rest =>
-        if a.key != "extmap".toList then go rest
-        else match a.value with
-          | none => none                       -- `attr.value.as_ref()?` leaves the function
-          | some v =>
-            if containsSub v uri then
-              match splitWs v with
-              | t :: _ => some t
-              | [] => go rest
-            else go rest
-    go r.attrs
+def remoteExtId (r : Media) (uri : Str) : Option Str :=
+  let rec go : List Attr → Option Str
+    | [] => none
+    | a :: rest =>
+      if a.key != "extmap".toList then go rest
+      else match a.value with
+        | none => none                       -- `attr.value.as_ref()?` leaves the function
+        | some v =>
+          -- "<id> <URI> …": the URI is the second token (round-3 `fix:`; before: `val.contains(uri)`)
+          match splitWs v with
+          | t :: u :: _ => if u = uri then some t else go rest
+          | _ => go rest
+  go r.attrs
 
 def extAttr (id : Str) (uri : Str) : Attr := attr "extmap" (id ++ sp ++ uri)
 
-def extmapAttrs (c : Cfg) (kind : Kind) (remote : List Media) (mid : Str) : List Attr :=
+def extmapAttrs (c : Cfg) (kind : Kind) (o : Media) : List Attr :=
   (if kind = .video then
-     (match remoteExtId remote mid RID_URI with | some id => [extAttr id RID_URI] | none => []) ++
-     (match remoteExtId remote mid RRID_URI with | some id => [extAttr id RRID_URI] | none => [])
+     (match remoteExtId o RID_URI with | some id => [extAttr id RID_URI] | none => []) ++
+     (match remoteExtId o RRID_URI with | some id => [extAttr id RRID_URI] | none => [])
    else []) ++
-  (match remoteExtId remote mid ABS_URI with | some id => [extAttr id ABS_URI] | none => []) ++
+  (match remoteExtId o ABS_URI with | some id => [extAttr id ABS_URI] | none => []) ++
   (if c.legacySip then [] else
-     match remoteExtId remote mid MID_URI with | some id => [extAttr id MID_URI] | none => [])
+     match remoteExtId o MID_URI with | some id => [extAttr id MID_URI] | none => [])
 
 def setupAttrs (c : Cfg) (role : Option Bool) : List Attr :=
   if c.mode = .webrtc then
@@ -363,29 +344,32 @@ def protoFor (c : Cfg) (k : Kind) : Str :=
     | .rtp => "RTP/AVP".toList | .srtp => "RTP/SAVP".toList | .webrtc => "UDP/TLS/RTP/SAVPF".toList
 
 /-- `apply_config` + the answer-only codec adjustments of `populate_media_capabilities` -/
-def codecPart (c : Cfg) (k : Kind) (remote : List Media) (hasLocal : Bool) (mid : Str) : List Str × List Attr :=
+def codecPart (c : Cfg) (k : Kind) (o : Media) : List Str × List Attr :=
   match k with
   | .audio =>
     let fa := applyAudioConfig c
-    match reinviteAudioCaps c remote hasLocal mid with
+    match reinviteAudioCaps c o with
     | some caps => applyAudioCaps fa caps
     | none => fa
-  | .video => mergeRemoteRtx remote mid (stripRtx (applyVideoConfig c))
+  | .video => mergeRemoteRtx o (stripRtx (applyVideoConfig c))
   | .application => (["webrtc-datachannel".toList], [attr "sctp-port" (natStr c.sctpPort)])
   | .image => ((imageCaps c).map (fun t => natStr t.pt), (imageCaps c).flatMap t38AttrsOf)
 
-/-- `populate_media_capabilities(.., Answer)` followed by the rtcp-mux retain -/
-def capabilities (c : Cfg) (k : Kind) (remote : List Media) (hasLocal : Bool) (role : Option Bool)
-    (mid : Str) (remoteMux : Bool) : List Str × List Attr :=
-  let fa := codecPart c k remote hasLocal mid
-  let attrs := fa.2 ++ extmapAttrs c k remote mid ++ setupAttrs c role
-  (fa.1, if remoteMux then attrs else attrs.filter (fun a => a.key != "rtcp-mux".toList))
+def secHasMux (s : Media) : Bool := s.attrs.any (fun a => a.key = "rtcp-mux".toList)
 
-def answerSection (c : Cfg) (t : TrxView) (remote : List Media) (hasLocal : Bool) (role : Option Bool)
-    (mid : Str) (remoteMux : Bool) : Media :=
-  let fa := capabilities c t.kind remote hasLocal role mid remoteMux
+/-- `populate_media_capabilities(.., Answer)` followed by the rtcp-mux retain (`o` offered `a=rtcp-mux`?) -/
+def capabilities (c : Cfg) (k : Kind) (o : Media) (role : Option Bool) : List Str × List Attr :=
+  let fa := codecPart c k o
+  -- `a=setup` (with `a=fingerprint`) is pushed with the transport attributes, BEFORE the codec attributes
+  -- (round-3 `fix:` "attributes in the order the serialiser writes them")
+  let attrs := setupAttrs c role ++ fa.2 ++ extmapAttrs c k o
+  (fa.1, if secHasMux o then attrs else attrs.filter (fun a => a.key != "rtcp-mux".toList))
+
+/-- the answer section built from transceiver `t` for the offered section `o`; `mid` = the transceiver's mid -/
+def answerSection (c : Cfg) (t : TrxView) (o : Media) (role : Option Bool) (mid : Str) : Media :=
+  let fa := capabilities c t.kind o role
   { kind := t.kind, mid, port := newSectionPort, proto := protoFor c t.kind, formats := fa.1,
-    dir := finalDirection t remote mid, attrs := fa.2, connection := none }
+    dir := finalDirection t o, attrs := fa.2, connection := none }
 
 /-! ### the description -/
 
@@ -393,26 +377,17 @@ def findIdxFrom (p : Nat → TrxView → Bool) : List TrxView → Nat → Option
   | [], _ => none
   | t :: rest, i => if p i t then some i else findIdxFrom p rest (i + 1)
 
-/-- section → transceiver matching; `none` = "No transceiver found for mid … in answer generation" -/
-def answerOrder (ts : List TrxView) : List Media → List Nat → List (Nat × Bool) → Option (List (Nat × Bool))
+/-- section → transceiver matching, in the offer's order: for every offered section the index of the
+transceiver that answers it, paired with that section (the answer's i-th section responds to the offer's
+i-th section); `none` = "No transceiver found for mid … in answer generation" -/
+def answerOrder (ts : List TrxView) : List Media → List Nat → List (Nat × Media) → Option (List (Nat × Media))
   | [], _, acc => some acc.reverse
   | s :: rest, used, acc =>
     let found :=
       if !s.mid.isEmpty then findIdxFrom (fun i t => !used.contains i && t.kind = s.kind && t.mid = some s.mid) ts 0
       else findIdxFrom (fun i t => !used.contains i && t.kind = s.kind) ts 0
     match found with
-    | some i => answerOrder ts rest (i :: used) ((i, s.attrs.any (fun a => a.key = "rtcp-mux".toList)) :: acc)
-    | none => none
-
-/-- the matching before the round-2 `fix:` that added the kind test to the MID match -/
-def Legacy.answerOrder (ts : List TrxView) : List Media → List Nat → List (Nat × Bool) → Option (List (Nat × Bool))
-  | [], _, acc => some acc.reverse
-  | s :: rest, used, acc =>
-    let found :=
-      if !s.mid.isEmpty then findIdxFrom (fun i t => !used.contains i && t.mid = some s.mid) ts 0
-      else findIdxFrom (fun i t => !used.contains i && t.kind = s.kind) ts 0
-    match found with
-    | some i => Legacy.answerOrder ts rest (i :: used) ((i, s.attrs.any (fun a => a.key = "rtcp-mux".toList)) :: acc)
+    | some i => answerOrder ts rest (i :: used) ((i, s) :: acc)
     | none => none
 
 def offeredBundle (sessionAttrs : List Attr) : Bool :=
@@ -428,19 +403,19 @@ structure Answer where
 deriving DecidableEq, Repr
 
 /-- the section loop: `ensure_mid` then build; `mids` are allocated from `nextMid` in loop order -/
-def buildSections (c : Cfg) (ts : List TrxView) (remote : List Media) (hasLocal : Bool) (role : Option Bool) :
-    List (Nat × Bool) → Nat → List Media → List Media
+def buildSections (c : Cfg) (ts : List TrxView) (role : Option Bool) :
+    List (Nat × Media) → Nat → List Media → List Media
   | [], _, acc => acc.reverse
-  | (i, mux) :: rest, nextMid, acc =>
+  | (i, o) :: rest, nextMid, acc =>
     match ts[i]? with
-    | none => buildSections c ts remote hasLocal role rest nextMid acc
+    | none => buildSections c ts role rest nextMid acc
     | some t =>
       let (mid, nextMid') := match t.mid with
         | some m => (m, nextMid)
         | none => (natStr nextMid, (nextMid + 1) % 65536)
-      buildSections c ts remote hasLocal role rest nextMid' (answerSection c t remote hasLocal role mid mux :: acc)
+      buildSections c ts role rest nextMid' (answerSection c t o role mid :: acc)
 
-def answer (c : Cfg) (ts : List TrxView) (nextMid : Nat) (hasLocal : Bool) (role : Option Bool)
+def answer (c : Cfg) (ts : List TrxView) (nextMid : Nat) (role : Option Bool)
     (remote : Option Desc) : Except AErr Answer :=
   if ts.isEmpty then .error .noTransceivers else
   match remote with
@@ -449,7 +424,7 @@ def answer (c : Cfg) (ts : List TrxView) (nextMid : Nat) (hasLocal : Bool) (role
     match answerOrder ts r.media [] [] with
     | none => .error .noMatch
     | some order =>
-      let secs := buildSections c ts r.media hasLocal role order nextMid []
+      let secs := buildSections c ts role order nextMid []
       let willBundle := !c.legacySip && offeredBundle r.session.attrs
       let group := if !secs.isEmpty && willBundle then
           some ("BUNDLE ".toList ++ join sp (secs.map (·.mid))) else none
@@ -494,7 +469,13 @@ def offerGroup (sessionAttrs : List Attr) : Option Str :=
 def secAligned (o a : Media) : Bool := o.kind = a.kind && o.mid = a.mid
 def secPtsOk (o a : Media) : Bool := a.formats.all (fun f => o.formats.contains f)
 def secRtxOk (o a : Media) : Bool := (aptMap a.attrs).all (fun p => (aptMap o.attrs).contains p)
-def secExtOk (o a : Media) : Bool := (extIds a).all (fun i => (extIds o).contains i) && (extIds a).Nodup
+/-- `(id token, URI)` of every `a=extmap` -/
+def extPairs (m : Media) : List (Str × Str) :=
+  (attrVals m.attrs "extmap").filterMap (fun v => match splitWs v with | i :: u :: _ => some (i, u) | _ => none)
+/-- only offered extension ids — an id is offered FOR A URI: the answer keeps the offered (id, URI) binding
+(RFC 8285 §6) — and no duplicate ids -/
+def secExtOk (o a : Media) : Bool :=
+  (extIds a).all (fun i => (extIds o).contains i) && (extPairs a).all (fun p => (extPairs o).contains p) && (extIds a).Nodup
 def secMuxOk (o a : Media) : Bool := !hasAttr a "rtcp-mux" || hasAttr o "rtcp-mux"
 def secDirOk (o a : Media) : Bool := dirCompatible o.dir a.dir
 def secSetupOk (o a : Media) : Bool :=
